@@ -23,6 +23,12 @@
   * Deterministic generators (ChannelFunc1/2/5/6/7/8) are modelled exactly, including the float32 /
     float64 bit patterns of the small integers they produce; random / sine generators (0,3,4,9)
     produce the placeholder `PyVal.rnd` which is encoded as zero bits â€” compared by structure only.
+  * A channel object carries `calls`, the `DeviceChannel._cntr` call counter: `data_get` hands it to the
+    function (`func.get(self._cntr)`) and increments it on EVERY call with a function attached (also when
+    the function returned `None`); `DeviceChannel.reset` zeroes it (`Gen.Dummy.resetZeroesCalls`, read
+    from dev.py by the translator).  None of dummy.py's own functions reads the argument; the user-defined
+    kinds 11 (value = call index) and 12 (sparse: a sample only when the call index is a multiple of 3,
+    `None` otherwise) do â€” they are what makes the counter observable (finding F19, seeded C14-r3m2).
 -/
 import NxsModel.Dispatch
 import NxsModel.Requests
@@ -87,7 +93,7 @@ structure Chan where
   div : Int
   mlen : Nat
   name : Bytes
-  gen : Option Nat      -- `ChannelFunc<k>` (k â‰¤ 9), 10 = a user-defined vector function, or no function
+  gen : Option Nat      -- `ChannelFunc<k>` (k â‰¤ 9), 10/11/12 = user-defined functions (see `genGet`), or no function
   cntr : Int            -- the function's `_cntr`
   sign : Int            -- the function's `_sign` (ChannelFunc2)
   calls : Nat           -- `DeviceChannel._cntr`: number of `data_get` calls with a function attached
@@ -104,15 +110,18 @@ def genReset (c : Chan) : Chan :=
   | some 2 => { c with cntr := 0, sign := 1 }
   | _ => c
 
-/-- `DeviceChannel.reset` -/
-def Chan.reset (c : Chan) : Chan := genReset c
+/-- `DeviceChannel.reset`: `if self._func is not None: self._func.reset()`, then `self._cntr = 0` -/
+def Chan.reset (c : Chan) : Chan :=
+  if Gen.Dummy.resetZeroesCalls then { genReset c with calls := 0 } else genReset c
 
 def byteOfNat (n : Nat) : Byte := BitVec.ofNat 8 n
 
 def helloBytes (nuls : Nat) : Bytes := Gen.Dummy.f6Text.map byteOfNat ++ List.replicate nuls 0
 
-/-- `func.get(_)`: new function state and the data/meta tuples (`none` = the function returned `None`) -/
-def genGet (k vdim : Nat) (cntr sign : Int) : Int Ã— Int Ã— Option (List PyVal Ã— List Int) :=
+/-- `func.get(calls)`: new function state and the data/meta tuples (`none` = the function returned `None`);
+    `calls` is the argument `DeviceChannel.data_get` passes: the number of earlier `data_get` calls since the
+    last `reset` -/
+def genGet (k vdim : Nat) (cntr sign : Int) (calls : Nat) : Int Ã— Int Ã— Option (List PyVal Ã— List Int) :=
   match k with
   | 0 => (cntr, sign, some (List.replicate Gen.Dummy.f0Dim .rnd, []))
   | 1 =>
@@ -139,14 +148,21 @@ def genGet (k vdim : Nat) (cntr sign : Int) : Int Ã— Int Ã— Option (List PyVal Ã
     let c := cntr + 1
     let c := if c > 1000 then 0 else c
     (c, sign, some (List.replicate vdim (.int c), []))
+  | 11 =>
+    -- not in dummy.py: a user-defined stateless function (harness `IdxFunc`): `get(cntr) -> (cntr,) * vdim`
+    (cntr, sign, some (List.replicate vdim (.int (calls : Int)), []))
+  | 12 =>
+    -- not in dummy.py: the sparse variant: `None` unless `cntr % 3 == 0`
+    (cntr, sign, if calls % 3 = 0 then some (List.replicate vdim (.int (calls : Int)), []) else none)
   | _ => (cntr, sign, none)
 
-/-- `DeviceChannel.data_get` -/
+/-- `DeviceChannel.data_get`: `ret = self._func.get(self._cntr); self._cntr += 1` (every call), `None` without a
+    function -/
 def Chan.dataGet (c : Chan) : Chan Ã— Option (List PyVal Ã— List Int) :=
   match c.gen with
   | none => (c, none)
   | some k =>
-    let (cn, sg, r) := genGet k c.vdim c.cntr c.sign
+    let (cn, sg, r) := genGet k c.vdim c.cntr c.sign c.calls
     ({ c with cntr := cn, sign := sg, calls := c.calls + 1 }, r)
 
 /-! ### instances -/
